@@ -4,7 +4,7 @@ from typing import TYPE_CHECKING
 
 import numpy as np
 
-from ..actions._base import ActionGroup
+from ..actions._base import ActionGroup, atomic
 from ..actions.add_delete_edge import AddEdge, DeleteEdge
 from ..actions.add_delete_node import DeleteNode
 from ..actions.update_track_id import UpdateTrackIDs
@@ -14,6 +14,7 @@ if TYPE_CHECKING:
 
 
 class UserDeleteNode(ActionGroup):
+    @atomic
     def __init__(
         self,
         tracks: SolutionTracks,
